@@ -1,5 +1,6 @@
 import ScriggoV.Lemmas.ComposeInline
 import ScriggoV.Lemmas.ComposeScope
+import ScriggoV.Lemmas.ComposeLocal
 import ScriggoV.Model.ComposeEngine
 import ScriggoV.Gen.ExportGuard
 /-! C16 — render, import and extends compose like their documented expansions.
@@ -384,6 +385,115 @@ example : runFile (genEngine id (liftEsc toyEsc)) collideFiles 5 true 0
 example : ∃ ex, exportsOf collideFiles 3 1 = .ok ex ∧ lookup ex 1 = none ∧ (lookup ex 2).isSome := by
   exact ⟨_, rfl, rfl, rfl⟩
 example : exported 1 = false ∧ exported 2 = true := by decide
+
+/-! ## local declarations shadow the names of other files -/
+
+open Local in
+/-- **`innermost_wins`**: the lexical resolution returns the innermost enclosing declaration — for
+every nesting: whatever blocks lie inside the declaring block (as long as they do not declare the
+name themselves), whatever blocks and function boundaries lie outside it, and whatever the package
+table (imported macros, macros of the extending file) holds under that name. -/
+theorem innermost_wins (pre : Chain) (f : Frame) (rest : Chain) (t : Table) (n d : Nat)
+    (hpre : ∀ g ∈ pre, find g.decls n = none) (hf : find f.decls n = some d) :
+    resolve (pre ++ f :: rest) t n = some (.loc d) := by
+  unfold resolve
+  rw [resolveLocal_append_of_none pre (f :: rest) n hpre]
+  simp [resolveLocal, hf]
+
+open Local in
+/-- inside one block the latest declaration that precedes the use wins -/
+theorem latest_in_block_wins (ds : List (Nat × Nat)) (fn : Bool) (rest : Chain) (t : Table) (n d : Nat) :
+    resolve (⟨(n, d) :: ds, fn⟩ :: rest) t n = some (.loc d) := by
+  simp [resolve, resolveLocal, find]
+
+open Local in
+/-- with no local declaration around the use, the name is the other file's: the package table -/
+theorem no_local_resolves_to_table (c : Chain) (t : Table) (n d : Nat)
+    (hc : ∀ g ∈ c, find g.decls n = none) (ht : find t n = some d) : resolve c t n = some (.pkg d) := by
+  have := resolveLocal_append_of_none c [] n hc
+  simp only [List.append_nil] at this
+  simp [resolve, this, resolveLocal, ht]
+
+/-- **emitter fact** (regenerated from `emitCallNode`): the direct call of the package table's function
+is taken for a callee that is a plain identifier *not declared in the current function*. -/
+theorem emitter_direct_call_guarded (i d : Bool) : ExportGuard.directCallGuard i d = (i && !d) := by
+  cases i <;> cases d <;> decide
+
+open Local in
+/-- **The guard is exactly what makes a local of the current function win**: for an arbitrary
+condition `g` of the direct-call branch, "every call of a name declared in the current function goes
+to the lexically resolved declaration" holds iff `g` refuses the branch for such names. -/
+theorem direct_call_guard_needed (g : Bool → Bool) :
+    (∀ (c : Chain) (t : Table) (n : Nat), declaredInFunc c n = true →
+      emitCallee g false c t n = resolve c t n) ↔ g true = false := by
+  constructor
+  · intro h
+    have := h [⟨[(0, 1)], true⟩] [(0, 9)] 0 (by decide)
+    cases hg : g true with
+    | false => rfl
+    | true => simp [emitCallee, declaredInFunc, find, resolve, resolveLocal, hg] at this
+  · intro hg c t n hd
+    exact emitCallee_of_declaredInFunc g hg false c t n hd
+
+open Local in
+/-- … and the regenerated guard does: a macro parameter, a macro nested in a block, a variable of a
+block named like an imported macro is what `Name(...)` calls in the function that declares it. -/
+theorem local_of_current_function_wins (c : Chain) (t : Table) (n : Nat)
+    (hd : declaredInFunc c n = true) :
+    emitCallee (ExportGuard.directCallGuard true) false c t n = resolve c t n :=
+  (direct_call_guard_needed (ExportGuard.directCallGuard true)).2 (by decide) c t n hd
+
+open Local in
+/-- full statement: the emitter's callee is the lexical one for every chain of blocks -/
+def EmitEqResolve (g : Bool → Bool) : Prop :=
+  ∀ (c : Chain) (t : Table) (n : Nat), emitCallee g false c t n = resolve c t n
+
+open Local in
+/-- **False of the code today** (known finding `local-shadow-of-imported-macro-in-closure`): a local
+of an *enclosing* function is not "declared in the current function"; inside a closure the direct
+call wins over it. Witness: a closure body inside a block that declares name 0, table with name 0. -/
+theorem emit_ne_resolve_witness (g : Bool → Bool) (hg : g false = true) : ¬ EmitEqResolve g := by
+  intro h
+  have := h [⟨[], true⟩, ⟨[(0, 1)], false⟩] [(0, 9)] 0
+  simp [emitCallee, declaredInFunc, find, resolve, resolveLocal, hg] at this
+
+open Local in
+/-- **As far as it holds** (`…_partial`): the emitter's callee is the lexical one whenever no local of
+an enclosing function shadows a name of the package table at this use (`hUp`) — in particular for
+every name declared in the current function and for every name with no local declaration at all. The
+unrestricted statement is refuted by `emit_ne_resolve_witness`. -/
+theorem emit_eq_resolve_partial (c : Chain) (t : Table) (n : Nat)
+    (hUp : declaredInFunc c n = false → (resolveLocal c n).isSome = true → find t n = none) :
+    emitCallee (ExportGuard.directCallGuard true) false c t n = resolve c t n := by
+  cases hd : declaredInFunc c n with
+  | true => exact local_of_current_function_wins c t n hd
+  | false =>
+    cases hl : resolveLocal c n with
+    | none => exact emitCallee_of_not_local _ false c t n hl
+    | some d =>
+      have ht := hUp hd (by rw [hl]; rfl)
+      unfold emitCallee
+      simp [hd, ht]
+
+open Local in
+/-- with the repair proposed for the finding (the guard also asks the closure variables) the full
+statement holds -/
+theorem emit_closure_aware_eq_resolve (c : Chain) (t : Table) (n : Nat) :
+    emitCallee (ExportGuard.directCallGuard true) true c t n = resolve c t n := by
+  cases hl : resolveLocal c n with
+  | none => exact emitCallee_of_not_local _ true c t n hl
+  | some d =>
+    unfold emitCallee
+    simp [hl, ExportGuard.directCallGuard]
+
+open Local in
+/-- non-vacuity: a macro parameter named like an imported macro, called in the macro's body inside
+an `if` block; and the closure of the finding -/
+example : declaredInFunc [⟨[], false⟩, ⟨[(0, 1)], true⟩, ⟨[], true⟩] 0 = true ∧
+    resolve [⟨[], false⟩, ⟨[(0, 1)], true⟩, ⟨[], true⟩] [(0, 9)] 0 = some (.loc 1) ∧
+    emitCallee (ExportGuard.directCallGuard true) false [⟨[], false⟩, ⟨[(0, 1)], true⟩, ⟨[], true⟩] [(0, 9)] 0
+      = some (.loc 1) := by decide
+example : ¬ EmitEqResolve (ExportGuard.directCallGuard true) := emit_ne_resolve_witness _ (by decide)
 
 /-! ## non-vacuity: a concrete file set on which the hypotheses hold and every construct is used -/
 
